@@ -1393,9 +1393,13 @@ def gen_tolerance(ctx, n_scale):
         elif fn == "outer_prod":
             yield {"fn": fn, "num": num, "x": rand_cplx(rng, [n], num), "y": rand_cplx(rng, [m], num)}
         elif fn == "einsum":
-            eq = rng.choice(LIB_EQS)
-            size = eq_sizes(eq, rng)
-            sa, sb = shapes_for(eq, size, rng)
+            if rng.random() < 0.5:
+                eq = rng.choice(LIB_EQS)
+                size = eq_sizes(eq, rng)
+                sa, sb = shapes_for(eq, size, rng)
+            else:
+                eq = rng.choice(IMPLICIT_EQS + ELLIPSIS_EQS)
+                sa, sb = general_shapes(rng, eq)
             yield {"fn": fn, "num": num, "eq": eq, "x": rand_cplx(rng, sa, num), "y": rand_cplx(rng, sb, num), "rp": True, "ip": rng.random() < 0.6}
         elif fn == "conjugate":
             yield {"fn": fn, "num": num, "x": rand_cplx(rng, rand_shape(rng), num)}
